@@ -50,6 +50,9 @@ func syncPlan(prop, tier string, seed uint64) (runs []syncRun, crashIsViolation 
 			eq := base
 			eq.TimeMode, eq.Edit2 = 1, true
 			runs = append(runs, syncRun{"2 replicas, equal stamps", eq, 7, 10 * time.Minute})
+			dk := base
+			dk.Disk, dk.Closure = true, false
+			runs = append(runs, syncRun{"2 replicas, stock git transport (plain-path remote): cross-check of the in-process transport", dk, 5, 10 * time.Minute})
 		}
 		rule = "breadth-first over all interleavings of edit/push/pull actions of the replicas; states deduplicated by (all refs of all repositories, persisted clocks, per-actor seam counters); a state is non-trivial when distinct by that key"
 	case "C02":
